@@ -36,6 +36,15 @@ def lane_offsets(F, tyid):
     return [o for (o, s, lt) in visible_leaves(F, tyid)]
 
 
+_EL = {'D': 'f64', 'I8': 'i8', 'U8': 'u8', 'I16': 'i16', 'U16': 'u16', 'I64': 'i64', 'U64': 'u64', 'USize': 'usize', 'ISize': 'isize',
+       'I': 'i32', 'U': 'u32', 'B': 'bool', '': 'f32'}
+
+
+def element_type_name(short):
+    m = re.match(r'^(D|I8|U8|I16|U16|I64|U64|USize|ISize|I|U|B|)(Vec[234]A?|Mat[234]A?|Quat|Affine[23]A?)$', short)
+    return _EL[m.group(1)] if m else None
+
+
 def find_type(F, name):
     for i, t in F.types.items():
         if t['n'] == name:
@@ -91,8 +100,12 @@ def run(ctx):
                     if not bad and len(fields) != N:
                         bad = 'emits %d elements, the value has %d' % (len(fields), N)
                     if not bad:
+                        want_el = element_type_name(short)
                         for k, e in enumerate(fields):
                             arg = e[1][1]
+                            if want_el is None or arg[1] != want_el:
+                                bad = 'element %d is written as %s; the documented element type of %s is %s' % (k, arg[1], short, want_el)
+                                break
                             ats = re.findall(r'a0\*@(\d+)', str(arg[2]))
                             if len(set(ats)) != 1 or int(ats[0]) != offs[k]:
                                 bad = 'element %d emitted is %s, expected the element at byte offset %d (element order)' % (k, str(arg[2])[:120], offs[k])
@@ -105,7 +118,7 @@ def run(ctx):
                         depth = [len(e[2]) for e in eff]
                         if depth != sorted(depth):
                             bad = 'calls are not sequenced on one success path'
-                    ser_seq.setdefault(short, {})[cfg] = (N, seq)
+                    ser_seq.setdefault(short, {})[cfg] = (N, seq, element_type_name(short))
                 done('R-SER', name, bad, it)
                 continue
             m = VIS_RE.match(name)
@@ -220,6 +233,38 @@ def run(ctx):
                 ctx.violation('R-LAYOUT', cfg, name, {'problem': bad})
             else:
                 ctx.holds('R-LAYOUT', cfg, name)
+        # the other bytemuck marker traits: anything that lets safe code build the value from bytes (AnyBitPattern, CheckedBitPattern excepted
+        # because it validates) or view it as bytes (NoUninit) must not be offered for masks, whose lanes are all-ones / zero or bools
+        for m in F.impls:
+            if 'bytemuck' not in m['trait'] or m['trait'].endswith('Pod'):
+                continue
+            trn = m['trait'].rsplit('::', 1)[-1]
+            name = 'impl %s for %s' % (trn, m['self'])
+            tyid = m['self_ty']
+            counts['R-LAYOUT'] = counts.get('R-LAYOUT', 0) + 1
+            if tyid is None or tyid < 0:
+                ctx.unverifiable('R-LAYOUT', cfg, name, 'generic bytemuck impl')
+                continue
+            lv = leaves_plain(F, tyid)
+            is_mask = m['self'].rsplit('::', 1)[-1].startswith('BVec')
+            nonnum = [o for (o, s_, lt) in lv if F.types[lt].get('k') not in ('int', 'float')]
+            bad = None
+            if trn == 'Zeroable':
+                pass                      # the all-zero pattern is the all-false mask and the zero vector
+            elif trn == 'AnyBitPattern':
+                if is_mask or nonnum:
+                    bad = 'AnyBitPattern on a type whose lanes are not plain numbers: arbitrary bytes would create an invalid mask / bool'
+            elif trn == 'NoUninit':
+                if sum(s_ for (o, s_, lt) in lv) != F.types[tyid]['sz']:
+                    bad = 'NoUninit on a type with padding bytes'
+            elif trn in ('CheckedBitPattern',):
+                pass
+            else:
+                bad = 'unreviewed bytemuck marker trait %s' % trn
+            if bad:
+                ctx.violation('R-LAYOUT', cfg, name, {'problem': bad})
+            else:
+                ctx.holds('R-LAYOUT', cfg, name)
         for padded in ('Vec3A', 'Mat3A', 'Affine3A'):
             if cfg == 'interop' and any(m['self'].rsplit('::', 1)[-1] == padded for m in pods):
                 ctx.violation('R-LAYOUT', cfg, 'impl Pod for ' + padded, {'problem': 'Pod on a padded SIMD type'})
@@ -271,7 +316,10 @@ def run(ctx):
                 body = F.body(it['key'])
                 sty, _ = strip_ref(F, body['locals'][1])
                 offs = lane_offsets(F, sty)
-                if mname == 'resolve':
+                stn = F.types[sty]['n'].rsplit('::', 1)[-1]
+                if stn.startswith('BVec') or any(F.types[lt].get('k') not in ('int', 'float') for (o, s_, lt) in leaves_plain(F, sty)):
+                    bad = 'rkyv archives %s as its own bytes and accepts every bit pattern back (CheckBytes is a no-op); that is only sound for types made of plain numbers' % stn
+                elif mname == 'resolve':
                     e = [x for x in r.effects if x[0].rsplit('::', 1)[-1] == 'write']
                     if len(e) != 1:
                         bad = 'resolve does not perform exactly one Place::write'
@@ -291,19 +339,23 @@ def run(ctx):
             done('R-RKYV', name, bad, it)
         ctx.floor('serde Serialize impls (%s)' % cfg, counts.get('R-SER', 0), 50)
         ctx.floor('serde Deserialize impls (%s)' % cfg, counts.get('R-DESER', 0), 100)
-        ctx.floor('Pod impls (%s)' % cfg, counts.get('R-LAYOUT', 0), 35)
+        ctx.floor('bytemuck impls (%s)' % cfg, counts.get('R-LAYOUT', 0), 84)
         ctx.floor('mint conversions (%s)' % cfg, counts.get('R-MINT', 0), 80)
         ctx.floor('rkyv impls (%s)' % cfg, counts.get('R-RKYV', 0), 44)
         for k, v in sorted(counts.items()):
             ctx.count('%s:%s' % (k, cfg), v)
     # cross-backend: identical emission order
-    for short, per in ser_seq.items():
-        if len(per) == 2:
-            a, b = per.get('interop'), per.get('interop-scalar')
-            if a == b:
-                ctx.holds('R-SIB', 'interop|interop-scalar', short)
-            else:
-                ctx.violation('R-SIB', 'interop|interop-scalar', short, {'problem': 'serialisation order differs between SIMD and scalar-math builds', 'simd': a, 'scalar': b})
+    for short, per in sorted(ser_seq.items()):
+        if len(per) < 2:
+            continue
+        vals = sorted(per.items())
+        ref_cfg, ref = vals[0]
+        diff = [(c, v) for (c, v) in vals[1:] if v != ref]
+        inst = '|'.join(c for c, _ in vals)
+        if not diff:
+            ctx.holds('R-SIB', inst, short)
+        else:
+            ctx.violation('R-SIB', inst, short, {'problem': 'serialisation order differs between builds', ref_cfg: ref, diff[0][0]: diff[0][1]})
     if ctx.tier == 'thorough':
         from runner import run_witness
         run_witness(ctx, ['C19'])
